@@ -47,11 +47,18 @@ def gen_reentry_case(rng, thorough):
     a, b, c, f = perm
     ops = [('newobj', 0, len(hier) - 1)]
     fail = rng.choice([('read', 'self', f), ('add', ('read', 'self', f), ('const', ('int', 1))), ('seq', ('const', ('int', 3)), ('read', 'self', f))])
+    runaway = rng.random() < 0.35
+    if runaway:
+        # the failure is a runaway recursion that starts INSIDE a re-entered evaluation of a (directly a -> a -> ..., or a -> b -> a -> ...)
+        # while the outer invocation of a is still on the stack: every nested read must fail with AttributeError, so the handlers of the
+        # outer invocation and of c (which sit at shallow depth) see the documented error
+        fail = rng.choice([('read', 'self', a), ('add', ('read', 'self', a), ('const', ('int', 1))), ('read', 'self', b)])
     extra = rng.randint(0, 3)
     second = ('add', ('read', 'self', c), ('const', ('int', 1)))
     for _ in range(extra):          # several reads after the caught failure
         second = ('add', ('read', 'self', c), second)
-    progs = {a: ('ifcycle', fail, ('try', ('read', 'self', b), second)),
+    first = ('read', 'self', b) if not runaway or rng.random() < 0.5 else ('read', 'self', f)
+    progs = {a: ('ifcycle', fail, ('try', first, second)),
              b: rng.choice([('read', 'self', a), ('add', ('read', 'self', a), ('const', ('int', 2)))]),
              c: ('try', ('read', 'self', a), ('const', ('int', 77)))}
     nid = 0
@@ -60,7 +67,7 @@ def gen_reentry_case(rng, thorough):
         nid += 1
     for _ in range(rng.randint(2, 6)):
         ops.append(('read', 0, rng.choice([a, a, b, c, f])))
-    return dict(hier=hier, nhooks=4, ops=ops, cmp_trace=True)
+    return dict(hier=hier, nhooks=4, ops=ops, cmp_trace=not runaway)
 
 
 def gen_case(rng, thorough):
@@ -123,9 +130,11 @@ def gen_case(rng, thorough):
         ops.append(('register', nid, dict(owner=0, hook=b, tier=1, wrapper=False, guarded=False, post=None,
                                           prog=('read', 'self', a)))); nid += 1
         cmp_trace = False
-    if rng.random() < 0.3:   # wrappers on level 0
+    if rng.random() < 0.4:   # wrappers on level 0 (a wrapper can turn a finite value into None or a non-finite one)
         ops.append(('register', nid, dict(owner=0, hook=0, tier=1, wrapper=True, guarded=True,
-                                          post=rng.choice([('add', 100), ('id',), ('raise', 'ECustom'), ('yield2',)]), prog=None)))
+                                          post=rng.choice([('add', 100), ('id',), ('raise', 'ECustom'), ('yield2',), ('const', ('inf',)), ('const', ('nan',)),
+                                                           ('const', ('list', [('int', 1), ('nan',)])), ('const', ('none',)),
+                                                           ('const', ('int', 5))]), prog=None)))
         nid += 1
     reads = []
     for _ in range(rng.randint(3, 14 if not thorough else 30)):
@@ -182,10 +191,21 @@ def result_class_oracle(chk, rng, n):
              (np.array([1.0, np.nan]), ValueError), ([1, float('inf')], ValueError), (np.float64('inf'), ValueError),
              (3, None), (0, None), (False, None), ("text", None), ({"a"}, None), ([1, 2], None), (np.array([1.0, 2.0]), None),
              (ragged_ok, None), (ragged_bad, ValueError), ((lambda: 1), None), ([], None), (np.array([]), None)]
-    for v, exc in table:
+    for v, exc, wrapped in [(v, exc, w) for v, exc in table for w in (False, True)]:
         class K(HookHost):
             h = Hook[Any]()
-        K.h(lambda self, v=v: v)
+        if wrapped:
+            # the value is what a wrapper makes of a harmless inner result
+            K.h(lambda self: 1.0)
+
+            def wrap(self, cycle, v=v):
+                if cycle:
+                    return None
+                yield
+                return v
+            K.h(wrap, wrapper=True)
+        else:
+            K.h(lambda self, v=v: v)
         k = K()
         try:
             got = k.h
@@ -193,11 +213,15 @@ def result_class_oracle(chk, rng, n):
         except Exception as e:
             raised = type(e)
         chk.cov['evaluations'] += 1
-        ok = (raised is exc) if exc else (raised is None and (got is v))
-        if ok and exc and 'h' in k.__cache__:
+        if wrapped and v is None:
+            # a wrapper that declines lets the rest of the chain answer
+            ok = raised is None and got == 1.0
+        else:
+            ok = (raised is exc) if exc else (raised is None and (got is v))
+        if ok and exc and not (wrapped and v is None) and 'h' in k.__cache__:
             ok = False
         if not ok:
-            chk.fail('class', f"implementation result {v!r}: raised {raised}, expected {exc}; cache {list(k.__cache__)}",
+            chk.fail('class', f"{'wrapper' if wrapped else 'implementation'} result {v!r}: raised {raised}, expected {exc}; cache {list(k.__cache__)}",
                      {'value': repr(v)})
             return False
     return True
